@@ -117,11 +117,14 @@ class Gen:
         for nm in names:
             for p in rng.sample(sp, rng.choice([1, 1, 1, 2])):
                 mir["cells"][tp(p)][nm] = None
+        # "sandwich" programs: cached, uncached, uncached, cached, ... by rank, so that a cached
+        # cells reaches the next cached one through two nested uncached cells
+        sandwich = self.chainy and self.p_uncached >= 0.3 and rng.random() < 0.5
         for p in sp:
             for nm in list(mir["cells"][tp(p)]):
                 mir["cells"][tp(p)][nm] = {
                     "f": self.formula(p, nm), "an": rng.choice([0, 0, 0, 0, 2]),
-                    "cached": rng.random() >= self.p_uncached}
+                    "cached": (self.rank[nm] % 3 == 0) if sandwich else rng.random() >= self.p_uncached}
         return self.defs_json()
 
     def defs_json(self):
@@ -656,14 +659,28 @@ class Gen:
                 w = PROFILES[self.profile]
                 if w.get("set_value", 0) >= 10 and not self.queue and self.rng.random() < (
                         0.6 if getattr(self, "chainy", False) else 0.3):
-                    done, depth = [], 0
+                    done, depth, stack, bridged = [], 0, [], []
+
+                    def is_cached(nd):
+                        return (not nd[1] and tp(nd[0]) in self.mir["cells"]
+                                and nd[2] in self.mir["cells"][tp(nd[0])]
+                                and self.mir["cells"][tp(nd[0])][nd[2]]["cached"])
                     for f in ev.get("fx", []):
                         depth += 1 if f[0] == "enter" else -1
-                        if f[0] == "exit" and not f[1][1] and f[1][:3] != op["c"] \
-                                and tp(f[1][0]) in self.mir["cells"] \
-                                and f[1][2] in self.mir["cells"][tp(f[1][0])] \
-                                and self.mir["cells"][tp(f[1][0])][f[1][2]]["cached"]:
+                        if f[0] == "enter":
+                            stack.append(f[1])
+                        elif stack:
+                            stack.pop()
+                        if f[0] == "exit" and f[1][:3] != op["c"] and is_cached(f[1]):
                             done.append((depth, f[1]))
+                            # reached from a cached caller through TWO OR MORE uncached cells
+                            gap = 0
+                            while gap < len(stack) and not is_cached(stack[-1 - gap]):
+                                gap += 1
+                            if gap >= 2 and gap < len(stack):
+                                bridged.append(f[1])
+                    if bridged and self.rng.random() < 0.6:
+                        done = [(0, x) for x in bridged]
                     if done:
                         # mostly the deepest one: the longest path back to what was asked
                         deepest = max(d for d, _ in done)
